@@ -406,6 +406,30 @@ def worker(rec, shard, nshards, thorough, seed):
         combo, pattern = na_cases[ci]
         rec.state(("F6", combo, pattern))
         check_na_onsets(env, rec, combo, pattern, "F6")
+    # F7 Delay / Duration groups whose value is wrong: reported on their row, never an exception
+    bad_values = ["two s", "#", "2 parsecs", "", "2 MS", "2 s s", "-", "1e", "2 $"]
+    bad_cases = [(tag, v, ons) for tag in ("Delay", "Duration", "delay") for v in bad_values
+                 for ons in (None, ["10", "20"], ["n/a", "20"], ["20", "10"])]
+    for ci in core.shard_order(len(bad_cases), shard, nshards, seed):
+        tag, v, ons = bad_cases[ci]
+        cell = f"({tag}/{v}, (Triangle))"
+        tsv = ("onset\tHED\n" if ons else "HED\n")
+        for i, txt in enumerate([cell, "Red"]):
+            tsv += (f"{ons[i]}\t" if ons else "") + txt + "\n"
+        rec.n("evaluations")
+        rec.n("transitions")
+        rec.n("distinct_nontrivial")
+        rec.state(("F7", tag, v))
+        try:
+            issues = validate_file(env, tsv, "{}")
+        except Exception as e:
+            rec.violation(f"C07:raises:{type(e).__name__}:bad-delay-value", file=tsv, error=repr(e)[:300])
+            continue
+        must = set(env.basic_codes(cell))
+        got = {i["code"] for i in issues if i["severity"] == ERR and i.get("ec_row") == 2}
+        if not must <= got:
+            rec.violation("C07:cell-error-missing:F7:bad-delay-value", file=tsv, expected_at_least=sorted(must), got=sorted(got))
+        rec.outcome("bad-delay-value")
     # F4 unit spellings of Delay / Duration groups
     spell_cases = []
     for sp in UNIT_SPELLINGS:
